@@ -287,3 +287,67 @@ def bp_targets():
 
 def targets():
     return mv_core_targets() + mv_wrapper_targets() + bp_targets()
+
+
+# ------------------------------------------------------------------------------------------------ mv_transition (C18)
+def spec_transition(vi, vf):
+    """value-level: from the initial value of ``init`` to the final value of ``final``; X if any side is X/-, '-' if both are '-'"""
+    i, f = vi[1], vf[0]
+    both_unassigned = And(Not(vi[2]), vi[1], Not(vi[0]), Not(vf[2]), vf[1], Not(vf[0]))
+    any_unknown = Or(A.is_unknown8(vi), A.is_unknown8(vf))
+    comp = (f, i, A.xor2(f, i))
+    unassigned = (False, True, False)
+    return A._sel(both_unassigned, unassigned, A._sel(any_unknown, A.X8, comp))
+
+
+def transition_config(with_out):
+    def setup(ex):
+        st = State()
+        bsize = ex.fv('bsize', 'int')
+        st.assume(bsize >= 0)
+        st.env['__bsize__'] = bsize
+        init = ElemArr.new(ex, st, 'init', size=bsize, writable=False)
+        final = ElemArr.new(ex, st, 'final', size=bsize, writable=False)
+        for a in (init, final):
+            st.assume(upper_zero(a.elem(st)))
+        out = ElemArr.new(ex, st, 'out', size=bsize) if with_out else None
+        st.env.update(init=init, final=final, out=out)
+        ex.ins, ex.out = [init, final], out
+        return st
+
+    def post(ex, st):
+        r = st.ret
+        if with_out:
+            yield 'caller-supplied out receives the result (result is out)', r is ex.out
+        yield 'result is an array', isinstance(r, ElemArr)
+        if isinstance(r, ElemArr):
+            got = r.elem(st)
+            want = spec_transition(dec8(ex.ins[0].elem(ex.st0)), dec8(ex.ins[1].elem(ex.st0)))
+            yield 'result = transition(initial value of init, final value of final)', And(A.eqv(dec8(got), want), upper_zero(got))
+        for a in ex.ins:
+            yield f'frame:{a.name} unchanged', st.heap[a.name] == ex.st0.heap[a.name]
+        ex.prove(st, 'mustfail:result is always a constant', Not(bit(st.heap[r.name] if isinstance(r, ElemArr) else 0, 2)), ex.fn, expect='refuted')
+
+    def replay(model, obl, ex):
+        vals = [model.eval(ex.st0.heap[a.name].e, model_completion=True).as_long() for a in ex.ins]
+        return 'contracts.logic_c:run_transition', {'operands': vals, 'with_out': with_out}
+    return Config(f'out={"array" if with_out else "None"}', {'post': post, 'expr_fork': True, 'inplace_shapes': True}, setup, replay)
+
+
+def run_transition(args):
+    import numpy as np
+    from kyupy import logic
+    vi, vf = args['operands']
+    a, b_ = np.full((3,), vi, dtype=np.uint8), np.full((3,), vf, dtype=np.uint8)
+    kw = {'out': np.full((3,), 7, dtype=np.uint8)} if args.get('with_out') else {}
+    try:
+        r = logic.mv_transition(a, b_, **kw)
+    except Exception as e:  # noqa
+        return {'reproduced': True, 'observed': repr(e)}
+    want = A.code_of(tuple(bool(x) for x in spec_transition(A.val_of(vi), A.val_of(vf))))
+    return {'reproduced': any(int(x) != want for x in r) or (bool(kw) and r is not kw['out']), 'expected': want, 'observed': [int(x) for x in r]}
+
+
+def transition_targets():
+    prims = lambda globs: np_prims(globs['np'])
+    return [Target('logic', 'mv_transition', [transition_config(False), transition_config(True)], prims=prims)]
